@@ -36,6 +36,8 @@ type plan struct {
 	// Extra: a second part of the same check on the other engine; its
 	// evidence is merged into the property's evidence file.
 	Extra  *plan
+	// EvName: evidence file base name when it differs from the property id
+	EvName string
 	ID     string
 	Engine string // A or B
 	Level  string
@@ -437,7 +439,14 @@ func writeEvidenceA(p *plan, tier string, base uint64, sum *enga.Summary, perSta
 	ev["coverage"] = cov
 	b, _ := json.MarshalIndent(ev, "", " ")
 	os.MkdirAll(filepath.Join(verifDir, "evidence"), 0755)
-	os.WriteFile(filepath.Join(verifDir, "evidence", p.ID+".json"), b, 0644)
+	os.WriteFile(filepath.Join(verifDir, "evidence", evName(p)+".json"), b, 0644)
+}
+
+func evName(p *plan) string {
+	if p.EvName != "" {
+		return p.EvName
+	}
+	return p.ID
 }
 
 // ---- replay / serve children ----------------------------------------------
@@ -581,10 +590,11 @@ func runBoth(p *plan, tier string, base uint64, workers int, scale float64) int 
 	c1 := runPart(&main)
 	extra := *p.Extra
 	realID := p.ID
-	extra.ID = realID + ".part2"
+	extra.ID = realID
+	extra.EvName = realID + ".part2"
 	c2 := runPart(&extra)
 	f1 := filepath.Join(verifDir, "evidence", realID+".json")
-	f2 := filepath.Join(verifDir, "evidence", extra.ID+".json")
+	f2 := filepath.Join(verifDir, "evidence", extra.EvName+".json")
 	mergeEvidence(f1, f2, realID)
 	os.Remove(f2)
 	if c1 == 1 || c2 == 1 {
